@@ -1,3 +1,4 @@
+import math
 import struct
 import logging
 import os
@@ -449,6 +450,15 @@ class DataDevice(Device):
         self.data_idx = 0
 
     def _exec_read(self):
+        def to_integer(s):
+            # an item like 1.5 or 1e3 is a number too; it is rounded
+            # like any other number stored in an integer variable
+            try:
+                return int(s)
+            except ValueError:
+                value = float(s)
+                return round(value) if math.isfinite(value) else value
+
         data_type = self.cpu.pop(CellType.INTEGER)
         try:
             s = self.cpu.module.data[self.data_part][self.data_idx]
@@ -460,10 +470,10 @@ class DataDevice(Device):
 
         try:
             if data_type == 1:
-                value = 0 if s == Empty.value else int(s)
+                value = 0 if s == Empty.value else to_integer(s)
                 self.cpu.push(CellType.INTEGER, value)
             elif data_type == 2:
-                value = 0 if s == Empty.value else int(s)
+                value = 0 if s == Empty.value else to_integer(s)
                 self.cpu.push(CellType.LONG, value)
             elif data_type == 3:
                 value = 0.0 if s == Empty.value else float(s)
